@@ -133,7 +133,9 @@ Fixpoint first_leaf_pos (s : seg) : pos :=
   | Node _ p _ [] => p
   | Node _ _ _ (c :: _) => first_leaf_pos c
   end.
-Definition is_point (p : pos) : bool := (s0 p =? s1 p) && (t0 p =? t1 p).
+(** [PositionMarker::is_point]: both slices are empty; Rust's [Range::is_empty] is [!(start < end)],
+    so an inverted range (positions of inserted segments after an edit that moved code backwards) counts. *)
+Definition is_point (p : pos) : bool := (s1 p <=? s0 p) && (t1 p <=? t0 p).
 
 (** [TemplatedFile]: source, templated text, raw slices as (source_idx, slice_type == "literal") *)
 Record tfile := mkTf { src : str; tpl : str; rawsl : list (N * bool) }.
